@@ -18,6 +18,9 @@ var nastyStrings = []string{
 	"", "plain", "with \"quotes\" and \\backslash\\", "line\nbreak\r\ttab", "nul\x00byte", "ctl\x01\x1f\x7f",
 	" line sep  ", "<html>&amp;</html>", "emoji 😀 ünïcödé 日本語", "bad utf8 \xff\xfe\xc3(", "\xc3", "\\u0041",
 	strings.Repeat("long ", 50),
+	// text that spells an escape sequence: a literal backslash followed by u003c / u0026 / u003e, with one or two
+	// backslashes in front (a regular expression, a JSON document carried as a string)
+	"\\u003cscript\\u003e", "a\\\\u0026b", "re: \\u003e|\\u003c <&>", "\\\\", "\\",
 }
 
 // genJSONValue draws a payload value. encodable=false when encoding/json must refuse it.
